@@ -1218,9 +1218,16 @@ package p9
 //@   ensures[C18] @encode-buffer-released-at-most-once ncalls("(*sync.Pool).Put") <= 1
 //@   safety[C02]
 
+// registry.put: the object goes back into the per-type cache, where another
+// receiver may pick it up at once - so the reference to the payload buffer is
+// dropped first (C18, C02: a cached object must not point at a buffer that
+// still belongs to the finished request).
 //@ func (*registry).put
-//@   abstract
 //@   use transportFrame
+//@   modifies $ncalls, $n.*
+//@   at chan-send requires[C02,C18] @payload-reference-dropped-before-the-object-is-published sent == msg && (implements(msg, payloader) ==> ncalls("payloader.SetPayload") == 1)
+//@   at payloader.SetPayload requires[C02,C18] @clears-the-payload recv == msg && len(arg0) == 0
+//@   maypanic
 
 //@ func (*connState).handleRequest
 //@   use handlerBase localLocks
